@@ -229,11 +229,54 @@ def gen_thin(rng, params):
     return node
 
 
+def gen_bool1d(rng, params):
+    """disconnected / nested 1-D domains: interval with an interior hole, two disjoint intervals, their nestings and an
+    intersection; pieces and holes may move with a parameter (all pieces keep their order for parameter values in [0, 1])"""
+    from geomgen import c as C, PF, dy
+    base = dy(rng, -2, 1)
+    mv = (lambda: ("*", C(Fr(rng.choice([-1, 1, 2]), 8)), ("v", rng.choice(params), 0))) if params and rng.random() < 0.7 else None
+    shift = mv() if mv else None
+
+    def iv(a, b, moving=True):
+        lo, hi = C(base + a), C(base + b)
+        if shift is not None and moving:
+            lo, hi = ("+", lo, shift), ("+", hi, shift)
+        return Node("interval", "y", [PF([lo]), PF([hi])])
+    kind = rng.choice(["hole", "hole", "disjoint", "disjoint", "two-holes", "union-minus-hole", "inter"])
+    if kind == "hole":
+        return Node("cut", None, [], [iv(0, 3, moving=rng.random() < 0.5), iv(1, 2)])
+    if kind == "disjoint":
+        return Node("union", None, [], [iv(0, 1), iv(2, 3)])
+    if kind == "two-holes":
+        return Node("cut", None, [], [Node("cut", None, [], [iv(0, 5, moving=False), iv(1, 2)]), iv(3, 4)])
+    if kind == "union-minus-hole":
+        return Node("cut", None, [], [Node("union", None, [], [iv(0, 2), iv(3, 5)]), iv(Fr(1, 2), Fr(3, 2))])
+    return Node("inter", None, [], [Node("union", None, [], [iv(0, 1), iv(2, 3)]), iv(Fr(1, 2), Fr(5, 2), moving=False)])
+
+
+def scale_node(node, sigma):
+    """the same expression at another length scale: every length / position is multiplied by sigma (a power of two, so
+    that all values stay exactly representable); rotation matrices are left alone"""
+    from geomgen import PF
+    out = Node(node.kind, node.var, [], [scale_node(kid, sigma) for kid in node.kids], node.flags)
+    for i, pf in enumerate(node.pfs):
+        if node.kind == "rotate" and i == 0:
+            out.pfs.append(pf)
+        else:
+            out.pfs.append(PF([("*", ("c", Fr(sigma)), t) for t in pf.terms]))
+    return out
+
+
+SCALES = [Fr(1, 2 ** 20), Fr(1, 2 ** 20), Fr(1, 2 ** 10), Fr(2 ** 10), Fr(2 ** 20), Fr(2 ** 20)]      # 1e-6 ... 1e6
+
+
 def gen_expr(ctx, mode, params, prows):
     """returns a Node (validated for positive measure) or None"""
     rng = ctx.rng
     if mode == "thin":
         return gen_thin(rng, params)
+    if mode == "bool1d":
+        return gen_bool1d(rng, params)
     for _ in range(40):
         g = Gen(rng, params=params, p_dep=0.7 if mode in ("prim", "primbdry") else 0.4)
         depth = rng.choice([2, 2, 3]) if ctx.quick else rng.choice([2, 3, 3, 4])
@@ -287,8 +330,13 @@ N_CHOICES = [1, 2, 3, 7, 40]
 
 def make_case(ctx, idx):
     rng = ctx.rng
-    mode = rng.choice(["prim", "prim", "primbdry", "primbdry", "solid", "solid", "solid", "solid", "bdry", "bdry", "prod", "sel", "sel", "thin", "thin"])
+    mode = rng.choice(["prim", "prim", "primbdry", "primbdry", "solid", "solid", "solid", "solid", "bdry", "bdry", "prod", "sel", "sel", "thin", "thin",
+                       "bool1d", "bool1d", "scaledsel", "scaledsel", "scaledsel"])
     params = rng.choice([[], ["t"], ["t"], ["t", "D"]])
+    force_scale = None
+    if mode == "scaledsel":
+        # rejection against a parallelogram / triangle partner at an extreme length scale
+        mode, force_scale = "sel", rng.choice([Fr(1, 2 ** 20), Fr(1, 2 ** 20), Fr(2 ** 20)])
     k = rng.choice([1, 2, 3]) if params else 0
     if mode == "prod":
         k = min(k, 1)     # row counts of products with several parameter rows are C02's (known finding there)
@@ -296,13 +344,22 @@ def make_case(ctx, idx):
     node = gen_expr(ctx, mode, params, prows)
     if node is None:
         return None
+    if force_scale is not None and node.kids[1].kind not in ("par", "tri"):
+        return None
     n = rng.choice(N_CHOICES)
-    if mode in ("prim", "primbdry"):
+    if mode == "prim":
+        api = rng.choice(["dom.random", "dom.random", "dom.grid", "dom.random.d", "dom.grid.d", "smp.uniform", "smp.grid", "smp.lhs", "smp.gauss",
+                          "smp.adaptive"])
+    elif mode == "primbdry":
         api = rng.choice(["dom.random", "dom.random", "dom.grid", "dom.random.d", "dom.grid.d", "smp.uniform", "smp.grid"])
     elif mode == "thin":
         api = rng.choice(["dom.grid", "dom.grid", "smp.grid", "dom.random", "smp.uniform"])
     elif mode == "sel":
         api = rng.choice(["sel.random", "sel.random", "sel.grid"])
+    elif mode == "bool1d":
+        # every sampler kind on disconnected 1-D domains
+        api = rng.choice(["smp.lhs", "smp.lhs", "smp.gauss", "smp.uniform", "smp.grid", "smp.adaptive", "smp.uniform.f", "smp.grid.f",
+                          "dom.random", "dom.grid", "dom.random.d", "smp.uniform.d"])
     elif mode == "prod":
         api = rng.choice(["dom.random", "dom.random", "dom.random.d", "smp.uniform"])
     elif mode == "bdry":
@@ -335,6 +392,20 @@ def make_case(ctx, idx):
         else:
             call["mean"] = mean
     prows = prows[:k]
+    # length scales 1e-6 ... 1e6: the whole expression (and everything measured in its units) is scaled; membership is judged
+    # exactly in the scaled frame (the signed margin is scale-free)
+    if mode in ("prim", "primbdry", "solid", "bdry", "sel", "bool1d") and (force_scale is not None or rng.random() < 0.35):
+        sigma = force_scale or rng.choice(SCALES)
+        node = scale_node(node, sigma)
+        call["scale"] = str(sigma)
+        if call["api"].endswith(".d"):
+            call["api"] = call["api"][:-2]          # a density is not scale-free: use the count form
+            call.pop("d", None)
+        if "filter" in call:
+            call["filter"][1] = str(Fr(call["filter"][1]) * sigma)
+        if "mean" in call:
+            call["mean"] = [m * float(sigma) for m in call["mean"]]
+            call["std"] = call["std"] * float(sigma)
     return dict(id=idx, mode=mode, dom=node.describe(), params=params, prows=prows_json(prows), call=call,
                 seed=rng.randint(0, 2 ** 31 - 1))
 
@@ -565,6 +636,19 @@ def classify_error(case, err):
     return None
 
 
+def abs_atol_excuse(case, node, m):
+    """boundary of an expression with disc / ball / interval leaves at a length scale <= 2^-10: |margin| within what an absolute
+    tolerance of 1e-8 amounts to relative to the smallest generated radius / width (0.25 units): 2 * 1e-8 / (0.25 * scale) * 1.5"""
+    if "scale" not in case["call"] or node.kind != "bdry":
+        return False
+    sigma = float(Fr(case["call"]["scale"]))
+    if sigma > 2 ** -10:
+        return False
+    if not any(k_ in ("circle", "sphere", "interval") for k_ in node.kinds()):
+        return False
+    return abs(float(m)) <= 1.2e-7 / sigma
+
+
 def describe_call(case):
     c = case["call"]
     return f"{c['api']}(n={c.get('n')}, d={c.get('d')}) with {len(case['prows'])} parameter rows"
@@ -650,12 +734,15 @@ def match_points(impl, model, dim, subset=False):
     return None
 
 
+UNIT = [1.0]      # length unit of the case being compared (scaled expressions)
+
+
 def compare_coords(impl, model):
     worst = 0.0
     for a, b in zip(impl, model):
         if not math.isfinite(a) or not math.isfinite(b):
             return float("inf")
-        worst = max(worst, abs(a - b) / max(1.0, abs(b)))
+        worst = max(worst, abs(a - b) / max(UNIT[0], abs(b)))
     return worst
 
 
@@ -901,6 +988,10 @@ def run(ctx, rep, cases=None, _intensified=False):
         node = geomgen.from_json(cs["dom"])
         call = cs["call"]
         rep.count("mode:" + cs["mode"])
+        rep.count("scale:" + ("1" if "scale" not in cs["call"] else "2^%d" % round(math.log2(float(Fr(cs["call"]["scale"]))))))
+        if cs["call"]["api"].startswith("smp."):
+            rep.count("sampler-kind x dim:%s:%dD%s" % (cs["call"]["api"], DIM[node.vars()[0]] if len(node.vars()) == 1 else sum(DIM[v] for v in node.vars()),
+                                                   ":boolean" if any(k_ in ("union", "cut", "inter") for k_ in node.kinds()) else ""))
         rep.count("api:" + call["api"])
         rep.count("depth:%d" % node.depth())
         rep.count("param-rows:%d" % len(cs["prows"]))
@@ -944,6 +1035,12 @@ def run(ctx, rep, cases=None, _intensified=False):
                 rep.disagree("drivers/C01.lean sd: the model cannot evaluate a returned row", dict(inp, point=pt, row_params=env), pt, rl)
                 break
             m = Fr(rl)
+            if (m < -EPS or (bdry and m > EPS)) and abs_atol_excuse(cs, node, m):
+                # known finding: the isclose boundary tests of disc / ball / interval have the ABSOLUTE tolerance 1e-8, which at a
+                # length scale of 1e-6 is percents of the radius; the row is recorded, the remaining rows are still judged
+                rep.fail(f"{describe_call(cs)} returned the point {pt}: margin {float(m):.4g} relative to the shape at length scale {float(Fr(call['scale'])):.3g} "
+                         f"(absolute deviation below 1e-7, accepted by the isclose(atol=1e-8) boundary tests)", inp, finding="abs_tolerance_tiny_scale")
+                continue
             if m < -EPS or (bdry and m > EPS):
                 where = ("outside the denoted set" if m < 0 else "in the interior, not on the boundary")
                 bad = (pt, env, f"{where}: exact signed margin {float(m):.4g} (tolerance {float(EPS)})")
@@ -956,6 +1053,7 @@ def run(ctx, rep, cases=None, _intensified=False):
                      finding=classify_error(cs, why))
             continue
         # tape correspondence
+        UNIT[0] = float(Fr(call.get("scale", "1")))
         if c > b:
             rep.traces_validated += 1
             if call["api"] == "dom.random":
